@@ -35,8 +35,106 @@ var solvers = []solverSpec{
 
 // buildQuery renders hyp /\ not goal.
 func (e *Engine) buildQuery(o *Obligation, getValues []*Term) string {
-	fs := []*Term{o.hyp, Not(o.goal)}
-	ax := e.expandQuantifiers(fs, []*Term{Not(o.goal)})
+	return e.buildQueryFrom(o.hyp, o.goal)
+}
+
+// ---------- relevance slicing ----------
+//
+// An obligation is first tried against the part of its hypotheses that shares symbols
+// (variables, uninterpreted function names) with the goal, transitively. Dropping hypotheses
+// is sound for a proof: "unsat" of the smaller query implies "unsat" of the full one. Any other
+// answer means nothing and the full query is built and decided.
+
+var noSlice = os.Getenv("GOVC_NO_SLICE") != ""
+
+var symIDs = map[string]int{}
+var termSyms = map[int][]int{}
+
+func symsOf(t *Term) []int {
+	if s, ok := termSyms[t.id]; ok {
+		return s
+	}
+	set := map[int]bool{}
+	Walk(t, map[int]bool{}, func(x *Term) {
+		if x.op == "var" || x.op == "uf" {
+			id, ok := symIDs[x.name]
+			if !ok {
+				id = len(symIDs) + 1
+				symIDs[x.name] = id
+			}
+			set[id] = true
+		}
+	})
+	out := make([]int, 0, len(set))
+	for k := range set {
+		out = append(out, k)
+	}
+	termSyms[t.id] = out
+	return out
+}
+
+func flattenAnd(t *Term, out []*Term) []*Term {
+	if t.op == "and" {
+		for _, a := range t.args {
+			out = flattenAnd(a, out)
+		}
+		return out
+	}
+	return append(out, t)
+}
+
+// slicedHyp returns the conjunction of the hypotheses relevant to the goal, and whether anything
+// was dropped.
+func slicedHyp(hyp, goal *Term) (*Term, bool) {
+	conj := flattenAnd(hyp, nil)
+	bySym := map[int][]int{}
+	for i, c := range conj {
+		for _, s := range symsOf(c) {
+			bySym[s] = append(bySym[s], i)
+		}
+	}
+	in := make([]bool, len(conj))
+	seenSym := map[int]bool{}
+	var work []int
+	for _, s := range symsOf(goal) {
+		if !seenSym[s] {
+			seenSym[s] = true
+			work = append(work, s)
+		}
+	}
+	n := 0
+	for len(work) > 0 {
+		s := work[len(work)-1]
+		work = work[:len(work)-1]
+		for _, i := range bySym[s] {
+			if in[i] {
+				continue
+			}
+			in[i] = true
+			n++
+			for _, s2 := range symsOf(conj[i]) {
+				if !seenSym[s2] {
+					seenSym[s2] = true
+					work = append(work, s2)
+				}
+			}
+		}
+	}
+	if n == len(conj) {
+		return hyp, false
+	}
+	var keep []*Term
+	for i, c := range conj {
+		if in[i] {
+			keep = append(keep, c)
+		}
+	}
+	return And(keep...), true
+}
+
+func (e *Engine) buildQueryFrom(hyp, goal *Term) string {
+	fs := []*Term{hyp, Not(goal)}
+	ax := e.expandQuantifiers(fs, []*Term{Not(goal)})
 	p := NewPrinter()
 	var body strings.Builder
 	for _, f := range fs {
@@ -54,16 +152,6 @@ func (e *Engine) buildQuery(o *Obligation, getValues []*Term) string {
 	body.WriteString("(set-option :produce-models true)\n(set-logic QF_UFBV)\n")
 	body.WriteString(p.String())
 	body.WriteString("(check-sat)\n")
-	if len(getValues) > 0 {
-		var refs []string
-		p2 := NewPrinter()
-		p2.decl = p.decl
-		p2.defined = p.defined
-		for _, v := range getValues {
-			refs = append(refs, p2.Ref(v))
-		}
-		_ = refs
-	}
 	return body.String()
 }
 
